@@ -62,7 +62,7 @@ struct Tx {
     teleports: Vec<(f64, f64, f64)>, // (time, bearing, km)
 }
 
-const CALLSIGNS: [&str; 8] = ["UAL123", "DLH4AB", "N12345", "BAW9", "AFR1234", "KLM60K", "A", "SWR 8"];
+const CALLSIGNS: [&str; 10] = ["UAL123", "DLH4AB", "N12345", "BAW9", "AFR1234", "KLM60K", "A", "SWR 8", "", ""];
 
 fn pos_at(tx: &Tx, t: f64) -> (f64, f64) {
     let mut p = wire::destination(tx.start, tx.heading, tx.speed_kms * t);
@@ -190,8 +190,48 @@ struct Cfg {
     boundary: bool,
 }
 
+/// One aircraft tracked for a long time: more than 2048 accepted position reports, so that its
+/// track outgrows any power-of-two cap; a second aircraft interleaves a little traffic.
+fn generate_long_haul(rng: &mut Rng) -> TScenario {
+    let lat = *rng.pick(&[35.0, -35.0, 52.0, 0.0]);
+    let lon = *rng.pick(&[-80.0, 4.0, 80.0]);
+    let n = 2060 + rng.usize_below(700);
+    let mut tx = Tx {
+        addr: [0x48, 0x40, 0xd6],
+        df18_cf: None,
+        ca: 5,
+        start: wire::destination((lat, lon), rng.f64_range(0.0, 360.0), 30.0),
+        heading: rng.f64_range(0.0, 360.0),
+        speed_kms: 450.0 * 1.852 / 3600.0,
+        alt_ft: 30_000,
+        alt_mode: 0,
+        parity_random: false,
+        next_odd: rng.coin(),
+        callsign: "LONG1".into(),
+        active_from: 0.0,
+        active_to: 1e9,
+        teleports: vec![],
+    };
+    let other = [0xa0, 0x00, 0x01];
+    let mut events = vec![];
+    let mut t = 0.0f64;
+    for i in 0..n {
+        let bytes = gen_position(rng, &mut tx, t);
+        events.push(TEv::Frame { t: (t * 1e9) as u64, hex: wire::hex(&bytes), note: String::new() });
+        if i % 97 == 0 {
+            let id = wire::df17(5, other, wire::me_identification(4, 0, "OTHER"));
+            events.push(TEv::Frame { t: (t * 1e9) as u64 + 1000, hex: wire::hex(&id), note: String::new() });
+        }
+        t += 0.5;
+    }
+    TScenario { lat, lon, max_range: 1e9, events }
+}
+
 #[allow(clippy::too_many_lines)]
 pub fn generate(rng: &mut Rng, fault_free: bool, focus: &str) -> TScenario {
+    if focus == "C14" && !fault_free && rng.chance(0.003) {
+        return generate_long_haul(rng);
+    }
     // ---- swarm configuration of this run
     let rate = |rng: &mut Rng, on: bool| if on && !fault_free { *rng.pick(&[0.01, 0.03, 0.1, 0.25]) } else { 0.0 };
     let cfg = Cfg {
@@ -210,7 +250,7 @@ pub fn generate(rng: &mut Rng, fault_free: bool, focus: &str) -> TScenario {
     let lat = *rng.pick(&[0.0, 35.0, -35.0, 60.0, -60.0, 85.0, -85.0, 89.9, -89.9, 35.0, 52.0]);
     let lon = *rng.pick(&[0.0, 80.0, -80.0, 179.95, -179.95, -80.0, 4.0]);
     let max_range = *rng.pick(&[0.0, 5.0, 50.0, 500.0, 500.0, 500.0, 2000.0, 1e9]);
-    let filter_t: u64 = *rng.pick(&[0u64, 1, 1, 2, 2, 5, 5, 60, 120, 1 << 40]);
+    let filter_t: u64 = *rng.pick(&[0u64, 1, 1, 2, 2, 5, 5, 60, 120, 1 << 40, i64::MAX as u64, 1 << 63, u64::MAX]);
     let prune_mode = if focus == "C15" { rng.below(2) } else { rng.below(3) }; // 0 every delivery, 1 sporadic, 2 never
     // thorough tier: a third of the runs use the deeper bounds, the rest stay short and diverse
     let deep = simcore::deep() && rng.chance(0.33);
@@ -411,7 +451,7 @@ pub fn generate(rng: &mut Rng, fault_free: bool, focus: &str) -> TScenario {
     let mut events: Vec<TEv> = vec![];
     for d in &dels {
         events.push(TEv::Frame { t: d.t, hex: wire::hex(&d.bytes), note: d.note.join(",") });
-        let secs = if rng.chance(0.15) { *rng.pick(&[0u64, 1, 2, 5, 60]) } else { filter_t };
+        let secs = if rng.chance(0.15) { *rng.pick(&[0u64, 1, 2, 5, 60, u64::MAX, u64::MAX - 1]) } else { filter_t };
         match prune_mode {
             0 => events.push(TEv::Prune { t: d.t, secs }),
             1 => {
@@ -551,7 +591,8 @@ impl Engine for TrackerEngine {
         match self.prop {
             "C12" => vec!["second_frame_of_address", "df18_for_known_address", "non_es_frame", "re_add_after_expiry", "isolation_replay_with_interleaved_traffic"],
             "C13" => vec!["range_reject", "jump_reject", "pair_accepted", "accept_with_previous_position", "clear_of_published_position", "acquisition", "publication_at_high_latitude", "publication_across_antimeridian", "same_parity_replaces_stored_report", "threshold_band_or_dont_care"],
-            "C14" => vec!["callsign_changed", "velocity_without_information_after_valid", "details_available", "position_without_details_altitude_missing", "track_with_three_positions", "current_position_republished"],
+            "C14" => vec!["callsign_changed", "velocity_without_information_after_valid", "details_available", "position_without_details_altitude_missing", "track_with_three_positions", "current_position_republished", "track_longer_than_2048"],
+            "C14x" => vec![],
             _ => vec!["elapsed_equals_threshold_exactly", "elapsed_one_ns_below_threshold", "prune_on_empty_tracker", "all_expire_at_once", "heard_again_after_expiry", "non_es_frame_must_not_refresh", "prune_with_clock_before_last_heard"],
         }
     }
